@@ -228,6 +228,19 @@ Check C04_run_or_purged : forall ops W k d tl d' tl', Forall honest_op ops ->
   (exists n, dist_at (fold_left (fun W o => fst (exec_op W o)) (firstn n ops) W) k = None) \/ monoL d d'.
 Print Assumptions C04_run_or_purged.
 
+(* without either form of the persistence hypothesis the statement is refuted (forged world: an under-funded distribution
+   and its zero-lamport token account are purged, then a NEW distribution is created at the same address) *)
+Theorem C04_run_needs_alive :
+  ~ (forall ops W k d tl d' tl', Forall honest_op ops ->
+       dist_at W k = Some (d, tl) -> dist_at (run W ops) k = Some (d', tl') ->
+       implb (d_debt_final d) (d_debt_final d') = true /\ d_relay d' = d_relay d).
+Proof. exact run_unconditional_refuted. Qed.
+Check C04_run_needs_alive :
+  ~ (forall ops W k d tl d' tl', Forall honest_op ops ->
+       dist_at W k = Some (d, tl) -> dist_at (fold_left (fun W o => fst (exec_op W o)) ops W) k = Some (d', tl') ->
+       implb (d_debt_final d) (d_debt_final d') = true /\ d_relay d' = d_relay d).
+Print Assumptions C04_run_needs_alive.
+
 (* ---- exported for C05 / C10: uncollectible debt *)
 Theorem C04_uncollectible_frozen_after_sweep : forall W t W' ok k d tl d' tl',
   exec_tx W t = (W', ok) -> dist_at W k = Some (d, tl) -> dist_at W' k = Some (d', tl') -> d_swept d = true ->
@@ -277,6 +290,10 @@ Theorem C04_uncollectible_le_total_alone_not_inductive :
   exists W' d' tl', exec_tx ex_W_bad ex_tx_configure = (W', true) /\ dist_at W' (KRdDist 7) = Some (d', tl') /\
     d_total_debt d' < d_uncollectible d'.
 Proof. exact uncollectible_le_total_alone_not_inductive. Qed.
+Check C04_uncollectible_le_total_alone_not_inductive :
+  (forall k d tl, dist_at ex_W_bad k = Some (d, tl) -> d_uncollectible d <= d_total_debt d) /\
+  exists W' d' tl', exec_tx ex_W_bad ex_tx_configure = (W', true) /\ dist_at W' (KRdDist 7) = Some (d', tl') /\
+    d_total_debt d' < d_uncollectible d'.
 Print Assumptions C04_uncollectible_le_total_alone_not_inductive.
 
 (* ---- non-vacuity: a literal history [set clock; ConfigureDebt; airdrop; FinalizeDebt through a rogue CPI wrapper] *)
@@ -289,4 +306,12 @@ Theorem C04_nonvacuous :
      mentions (stage_ix SDebtFinal) (i_data (hd (Build_instr KSystem IxNoop []) (tx_ixs ex_tx_finalize)))) /\
   exec_tx ex_W ex_tx_configure = (ex_W, false).
 Proof. split; [exact run_monoL_nonvacuous|]. split; [exact flag_set_only_by_nonvacuous|exact calc_gate_nonvacuous]. Qed.
+Check C04_nonvacuous :
+  (Forall honest_op ex_ops /\ alive ex_W ex_ops (KRdDist 7) /\
+   exists d' tl', dist_at (run ex_W ex_ops) (KRdDist 7) = Some (d', tl') /\
+     d_debt_final ex_dist = false /\ d_debt_final d' = true /\ d_total_validators d' = 3 /\ d_epoch d' = 7) /\
+  (exists W W' d tl d' tl', exec_tx W ex_tx_finalize = (W', true) /\ dist_at W (KRdDist 7) = Some (d, tl) /\
+     dist_at W' (KRdDist 7) = Some (d', tl') /\ flag_of SDebtFinal d = false /\ flag_of SDebtFinal d' = true /\
+     mentions (stage_ix SDebtFinal) (i_data (hd (Build_instr KSystem IxNoop []) (tx_ixs ex_tx_finalize)))) /\
+  exec_tx ex_W ex_tx_configure = (ex_W, false).
 Print Assumptions C04_nonvacuous.
